@@ -106,6 +106,7 @@ func freshSnapshot(p *Prog, fn *ssa.Function, v ssa.Value, depth int, seen map[s
 func runC13(c *Ctx, tier string) {
 	p := c.P
 	runPathCacheHoldsFullPaths(c, "C13-C1")
+	runIDBeforeName(c, "C13-N1")
 	c.Rule("C13-W1", "who may delete: storage.Engine.Delete/DeleteByPrefix is called only from the frozen sites (vacuum, abort of never-committed objects, lost-race commit object, pool removal), each with its reason")
 	c.Rule("C13-R1", "the read path never re-resolves names: no function of the kernel, optimizer, lake scan operators, vector runtime or lake/data calls a name->commit resolver; positive witness in the semantic analyzer")
 	c.Rule("C13-M1", "cached snapshots are not mutated: every Snapshot mutator call has a receiver that is fresh in that function (NewSnapshot, Copy, a patch's diff) or a parameter whose callers pass fresh ones")
@@ -402,6 +403,7 @@ func runC14(c *Ctx, tier string) {
 	c.Rule("C14-S1", "object order is deterministic: the lister's object sort and the load sort are stable sorts (= C06-S1 on the lake path)")
 	runLakeErrDiscipline(c, "C14-E1")
 	runSeekLookupScansAll(c, "C14-L1")
+	runBoundsUseSortEvaluator(c, "C14-K4")
 	runLakeErrNotConverted(c, "C14-E2")
 	fn := p.Func("(*lake/commits.Store).Vacuumable")
 	if fn == nil {
